@@ -175,10 +175,13 @@ def execute(case):
         builds.append(build)
         if cfg["custom"]:
             per_edge = ["m%de%d" % (j, i) for i in range(len(pairs))]
-            if bare:
-                names.append(lambda per_edge=per_edge: per_edge[0])
+            nstyle = case.get("name_style", 0)      # container the naming callback uses
+            if bare and nstyle % 3 == 0:
+                names.append(lambda per_edge=per_edge: per_edge[0])            # a bare name for a bare edge
+            elif nstyle % 3 == 1:
+                names.append(lambda per_edge=per_edge: tuple(per_edge))        # (also a one-element tuple for a bare edge)
             else:
-                names.append(lambda per_edge=per_edge: tuple(per_edge))
+                names.append(lambda per_edge=per_edge: list(per_edge))
             motifs_rec.append({"orbits": [k + 1 for k in orbits], "names": per_edge or ["-"], "homog": False,
                                "check_shape": lib is not None, "shape": [[a + 1, b + 1] for a, b in pairs]})
         else:
